@@ -29,7 +29,7 @@ CONSTANTS
 """
 RING_INV = "INVARIANTS WeightInv SlotInv FillInv RingInv CycleInv BoundsInv\nPROPERTY Terminates"
 CFG_INV = "INVARIANTS WeightInv WeighInv BoundsInv\nVIEW View\nCHECK_DEADLOCK FALSE"
-GEN = "INVARIANTS WeightInv BoundsInv\nVIEW View\nCHECK_DEADLOCK FALSE"
+GEN = "INVARIANTS WeightInv WeighInv BoundsInv\nVIEW View\nCHECK_DEADLOCK FALSE"
 WORKERS = 8
 FILES = ["route/common_test.go", "route/c04_test.go"]
 
@@ -81,12 +81,14 @@ def run(ctx):
             return
         ctx.cover("mc ring " + name, states=mc.distinct, transitions=mc.generated)
     # 2. `route weight` over services and tags: weights still sum to one, command is local
-    cm = ctx.tlc("Weights_MC", workers=WORKERS, timeout=ctx.pick(300, 1500),
-                 cfg_text=cmd_cfg("CfgSpec", 3, ctx.pick(1, 2), "MCWUSmall", ctx.pick("MCWCSmall", "MCWCFull"), CFG_INV))
-    ctx.log("MC route weight: %d generated, %d distinct, %.0fs" % (cm.generated, cm.distinct, cm.wall))
-    if not ctx.need_tlc_ok(cm, "Weights MC route weight"):
-        return
-    ctx.cover("mc cmd", states=cm.distinct, transitions=cm.generated)
+    #    (quick tier: the same invariants are checked during the generator run of step 3)
+    if ctx.thorough:
+        cm = ctx.tlc("Weights_MC", workers=WORKERS, timeout=1500,
+                     cfg_text=cmd_cfg("CfgSpec", 3, 2, "MCWUSmall", "MCWCFull", CFG_INV))
+        ctx.log("MC route weight: %d generated, %d distinct, %.0fs" % (cm.generated, cm.distinct, cm.wall))
+        if not ctx.need_tlc_ok(cm, "Weights MC route weight"):
+            return
+        ctx.cover("mc cmd", states=cm.distinct, transitions=cm.generated)
 
     # 3. generator
     cases = os.path.join(ctx.tmp, "c04.cases")
@@ -104,8 +106,8 @@ def run(ctx):
 
     # 4. replay into the real code
     # quick tier: weights and ring shares for every vector, the two full pick cycles for every
-    # vector of <=3 targets added with fixed weights and a seed-selected fifth (thorough: third) of the others
-    r = run_harness(ctx, cases, "C04 replay", pick_every=ctx.pick(5, 3))
+    # vector of <=3 targets added with fixed weights and a seed-selected eighth (thorough: third) of the others
+    r = run_harness(ctx, cases, "C04 replay", pick_every=ctx.pick(8, 3))
     if r is None:
         return
     s = r.summary
